@@ -7,13 +7,14 @@ enumerates every operation sequence of a depth per (component, family, prefix) a
 drv_containers executes the programs on the real containers; T_Containers judges every event (binding T).
 Seeded random long histories (dyn, hl) go through the same monitor.
 """
-import glob, hashlib, json, os
+import glob, json, os
+from concurrent.futures import ThreadPoolExecutor
 from . import lib
 
 PROP = "X03"
 MODULE_MC = "MC_Containers"
 MODULE_T = "T_Containers"
-ALL_DEVS = ["FX03a", "FX03b", "FX03c", "FX03d", "FX03e", "FX03g"]
+ALL_DEVS = ["FX03a", "FX03b", "FX03c", "FX03d", "FX03e", "FX03f", "FX03g"]
 COUNTERS = ["n_touch", "n_cutread", "n_exact", "n_denied", "n_hquery", "n_stale", "n_sexact", "n_rtrait"]
 DROP = ("seq", "res", "rc", "obs", "kind", "n", "md5", "wmd5", "smd5", "end", "flen", "panic", "ro")
 
@@ -64,7 +65,7 @@ def t_cfg(ctx, kd):
 
 
 def judge_trace(ctx, trace, source, kd, totals):
-    v = lib.judge(ctx, MODULE_T, t_cfg(ctx, kd), trace, max_events=30000)
+    v = lib.judge(ctx, MODULE_T, t_cfg(ctx, kd), trace, max_events=25000)
     ndev = {fid: v.get("dev_" + fid, 0) for fid in ALL_DEVS if v.get("dev_" + fid, 0)}
     ctx.stage("judge", source=source, events=v["events"], violations=v.get("nviol", 0), deviations=ndev,
               wall_s=v["wall_s"], chunks=v["chunks"])
@@ -79,64 +80,76 @@ def judge_trace(ctx, trace, source, kd, totals):
 
 
 def count_ops(ctx, info):
+    """operations the driver executed, by component and kind (counted by the driver)"""
     oc = ctx.cov.setdefault("ops_executed", {})
     for k, v in info.items():
         if k.startswith("n_") and isinstance(v, int):
             oc[k[2:]] = oc.get(k[2:], 0) + v
 
 
-def mc_and_run(ctx, c, kd, totals):
-    tag = "_".join(str(c[k]) for k in ("comp", "fam", "pre", "D", "cap", "resm", "lru"))
+def tag_of(c):
+    return "_".join(str(c[k]) for k in ("comp", "fam", "pre", "D", "cap", "resm", "lru", "fcap"))
+
+
+def mc_one(ctx, c):
+    """TLC on one configuration: design invariants + action property, every sequence of depth D printed as a program."""
+    tag = tag_of(c)
     cfg = ctx.path(f"mc_{tag}.cfg")
     lib.write_cfg(cfg, {"KnownDeviations": "{}", "LruCap": c["cap"], "Comp": f'"{c["comp"]}"', "Family": f'"{c["fam"]}"',
                         "Pre": f'"{c["pre"]}"', "D": c["D"], "ResM": f'"{c["resm"]}"', "LruOn": "TRUE" if c["lru"] else "FALSE",
                         "FCap": c["fcap"]},
                   "MCInit", "MCNext", constraints=["Constr"], invariants=["Inv", "Emit"], properties=["FrozenProp"])
     progs = ctx.path(f"prog_{tag}.ndjson")
-    r = lib.tlc(ctx, MODULE_MC, cfg, tagged_out={"PROGRAM": progs}, timeout=1500)
-    ctx.cov["states"] += r["distinct"]
-    ctx.cov["transitions"] += r["generated"]
+    r = lib.tlc(ctx, MODULE_MC, cfg, tagged_out={"PROGRAM": progs}, timeout=1500, workers=c.get("workers", 1), heap="4g")
     n = r["counts"]["PROGRAM"]
-    ctx.stage("mc", config=tag, distinct_states=r["distinct"], programs=n, wall_s=r["wall_s"])
     if n == 0:
         raise lib.ToolError(f"MC_Containers printed no program for {tag}")
-    trace = ctx.path(f"trace_{tag}.ndjson")
-    d = lib.run_sharded(ctx, "drv_containers", progs, trace, shards=min(lib.NCPU, 12))
-    ctx.stage("run", config=tag, programs=d.get("programs"), events=d.get("events"), hangs=d.get("hangs"), wall_s=d["wall_s"])
-    if d.get("programs") != n:
-        raise lib.ToolError(f"driver executed {d.get('programs')} of {n} programs")
-    count_ops(ctx, d)
-    _, dn = lib.count_distinct(progs)
-    return progs, trace, n, dn
+    return dict(tag=tag, progs=progs, n=n, distinct=r["distinct"], generated=r["generated"], wall_s=r["wall_s"])
+
+
+def model_refutations(ctx):
+    """Anti-vacuity of the design invariants: the FD cache as the code keeps it does not satisfy 'everything cached is
+    true' (HCoherentStrict) - TLC must refute it (the counterexamples are FX03c / FX03d at the level of the model)."""
+    cfg = ctx.path("mc_refute.cfg")
+    lib.write_cfg(cfg, {"KnownDeviations": "{}", "LruCap": 0, "Comp": '"hl"', "Family": '"links"', "Pre": '"la"', "D": 2,
+                        "ResM": '"off"', "LruOn": "FALSE", "FCap": 3},
+                  "MCInit", "MCNext", constraints=["Constr"], invariants=["HCoherentStrict"])
+    r = lib.tlc(ctx, MODULE_MC, cfg, timeout=600, workers=1, expect_violation=True)
+    ok = "HCoherentStrict" in r["invariant_violated"]
+    ctx.cov["model_refutes_strict_cache_coherence"] = ok
+    if not ok:
+        raise lib.ToolError("the code-shaped FD cache model no longer refutes HCoherentStrict (model out of date?)")
+    return r
 
 
 def cfgs(quick):
-    def c(comp, fam, pre, D, cap=2, resm="rw", lru=True, fcap=3):
-        return dict(comp=comp, fam=fam, pre=pre, D=D, cap=cap, resm=resm, lru=lru, fcap=fcap)
+    def c(comp, fam, pre, D, cap=2, resm="rw", lru=True, fcap=3, workers=1):
+        return dict(comp=comp, fam=fam, pre=pre, D=D, cap=cap, resm=resm, lru=lru, fcap=fcap, workers=workers)
     if quick:
-        return [c("dyn", "lru", "none", 4, cap=2, resm="off"), c("dyn", "lru", "none", 3, cap=1, resm="off"),
-                c("dyn", "lru", "none", 3, cap=0, resm="off"),
-                c("dyn", "trunc", "wab", 3), c("dyn", "trunc", "cut", 3), c("dyn", "trunc", "cut", 2, resm="ro"),
-                c("dyn", "trunc", "wab", 2, lru=False), c("dyn", "trunc", "wab", 2, resm="off"),
-                c("dyn", "modes", "wa", 3),
-                c("res", "all", "none", 3), c("res", "all", "saved", 3),
-                c("static", "all", "none", 4),
-                c("hl", "links", "none", 3), c("hl", "links", "la", 2), c("hl", "trait", "unprobed", 3),
-                c("hl", "cache", "none", 4), c("hl", "cache", "qa", 4)]
-    return [c("dyn", "lru", "none", 5, cap=2, resm="off"), c("dyn", "lru", "none", 4, cap=1, resm="off"),
+        return [c("dyn", "modes", "wa", 3), c("res", "all", "none", 3), c("dyn", "trunc", "wab", 3), c("dyn", "trunc", "cut", 3),
+                c("dyn", "lru", "none", 3, cap=2, resm="off"), c("dyn", "lru", "none", 3, cap=1, resm="off"),
+                c("dyn", "lru", "none", 2, cap=0, resm="off"),
+                c("dyn", "trunc", "cut", 2, resm="ro"), c("dyn", "trunc", "wab", 2, lru=False), c("dyn", "trunc", "wab", 2, resm="off"),
+                c("res", "all", "saved", 2),
+                c("static", "all", "wos", 3),
+                c("hl", "links", "none", 2), c("hl", "links", "la", 2), c("hl", "trait", "unprobed", 2), c("hl", "trait", "none", 2),
+                c("hl", "cache", "none", 3), c("hl", "cache", "qa", 3)]
+    return [c("hl", "links", "none", 4, workers=4), c("dyn", "trunc", "none", 5, workers=2), c("dyn", "modes", "wa", 4, workers=2),
+            c("hl", "cache", "qa", 5, workers=2),
+            c("dyn", "lru", "none", 4, cap=2, resm="off"), c("dyn", "lru", "none", 4, cap=1, resm="off"),
             c("dyn", "lru", "none", 4, cap=3, resm="off"), c("dyn", "lru", "none", 3, cap=0, resm="off"),
-            c("dyn", "trunc", "none", 5), c("dyn", "trunc", "wab", 4), c("dyn", "trunc", "cut", 4), c("dyn", "trunc", "cut", 3, resm="ro"),
+            c("dyn", "trunc", "wab", 4), c("dyn", "trunc", "cut", 4), c("dyn", "trunc", "cut", 3, resm="ro"),
             c("dyn", "trunc", "wab", 3, lru=False), c("dyn", "trunc", "wab", 3, resm="off"),
-            c("dyn", "modes", "wa", 4), c("dyn", "modes", "none", 4),
-            c("res", "all", "none", 4), c("res", "all", "saved", 4),
-            c("static", "all", "none", 5),
-            c("hl", "links", "none", 4), c("hl", "links", "la", 3), c("hl", "trait", "unprobed", 4), c("hl", "trait", "none", 4),
-            c("hl", "cache", "none", 5), c("hl", "cache", "qa", 5), c("hl", "cache", "la", 5, fcap=2)]
+            c("dyn", "modes", "none", 3),
+            c("res", "all", "none", 4), c("res", "all", "saved", 3),
+            c("static", "all", "none", 4), c("static", "all", "wos", 3),
+            c("hl", "links", "la", 3), c("hl", "trait", "unprobed", 4), c("hl", "trait", "none", 3),
+            c("hl", "cache", "none", 4), c("hl", "cache", "la", 4, fcap=2)]
 
 
 def replay(ctx, kd):
     obj = json.load(open(ctx.replay))
-    prog = obj["program"]
+    prog = obj.get("program") or obj.get("witness") or obj
     p = ctx.path("replay_prog.ndjson")
     open(p, "w").write(json.dumps(prog) + "\n")
     trace = ctx.path("replay_trace.ndjson")
@@ -144,21 +157,27 @@ def replay(ctx, kd):
     v = lib.tlc_trace(ctx, MODULE_T, t_cfg(ctx, kd), trace)
     print(open(trace).read())
     print(json.dumps(v))
+    if v["violations"]:
+        print(f"VIOLATION property={PROP} replay={ctx.replay}")
     return 1 if v["violations"] else 0
 
 
 def selftest(ctx, trace, kd):
     """Binding self-test: corrupt one logged field / drop one event -> the monitor must flag exactly that."""
-    lines = lib.read_lines(trace)[:5000]
+    allc = lib.read_lines(trace)
+    # a window of runs starting at the first run whose LRU order has two entries
+    i0 = next(i for i, l in enumerate(allc) if '"order":["' in l and len(json.loads(l)["obs"]["order"]) >= 2)
+    s0, _ = lib.run_of_line(allc, i0 + 1)
+    lines = allc[s0:s0 + 4000]
+    del allc
     while lines and not lib.is_new(lines[-1]):
         lines.pop()
     lines.pop()
     cfg = t_cfg(ctx, kd)
     p0 = ctx.path("selftest_0.ndjson"); open(p0, "w").write("\n".join(lines) + "\n")
-    base = lib.tlc_trace(ctx, MODULE_T, cfg, p0)
-    flagged0 = set(base["violations"])
     # (a) corrupt: reverse an observed LRU order of length >= 2
-    ia = next(i for i, l in enumerate(lines) if i > 40 and '"order":["' in l and len(json.loads(l)["obs"]["order"]) >= 2 and (i + 1) not in flagged0)
+    cand_a = [i for i, l in enumerate(lines) if '"order":["' in l and len(json.loads(l)["obs"]["order"]) >= 2]
+    ia = cand_a[min(3, len(cand_a) - 1)]
     e = json.loads(lines[ia]); e["obs"]["order"] = e["obs"]["order"][::-1]
     la = list(lines); la[ia] = json.dumps(e, separators=(",", ":"))
     pa = ctx.path("selftest_a.ndjson"); open(pa, "w").write("\n".join(la) + "\n")
@@ -166,21 +185,17 @@ def selftest(ctx, trace, kd):
     ib = next(i for i, l in enumerate(lines) if i > 60 and not lib.is_new(l) and not lib.is_new(lines[i + 1]))
     lb = list(lines); del lb[ib]
     pb = ctx.path("selftest_b.ndjson"); open(pb, "w").write("\n".join(lb) + "\n")
-    va = lib.tlc_trace(ctx, MODULE_T, cfg, pa)
-    vb = lib.tlc_trace(ctx, MODULE_T, cfg, pb)
+    with ThreadPoolExecutor(max_workers=3) as ex:
+        base, va, vb = ex.map(lambda p: lib.tlc_trace(ctx, MODULE_T, cfg, p), [p0, pa, pb])
+    flagged0 = set(base["violations"])
     ok_a = (ia + 1) in va["violations"] and (ia + 1) not in flagged0
     ok_b = (ib + 1) in vb["violations"] and len(vb["violations"]) > len(base["violations"])
     res = {"corrupt_one_field_flagged": ok_a, "drop_one_event_flagged": ok_b}
     ctx.cov["binding_selftest"] = res
+    for p in (p0, pa, pb):
+        os.remove(p)
     if not (ok_a and ok_b):
         raise lib.ToolError(f"binding self-test failed: {res}")
-
-
-def model_refutations(ctx):
-    """Anti-vacuity of the design invariants: a model whose first candidates include the listed deviations of the code
-    (MC_Containers with Deviant = TRUE is not provided - the invariants are instead shown non-vacuous by the monitor
-    rejecting the real code when a finding is unlisted; see docs/notes/X03.md).  Kept as a named stage for the evidence."""
-    return None
 
 
 def run(ctx):
@@ -189,32 +204,56 @@ def run(ctx):
     if ctx.replay:
         return replay(ctx, kd)
     totals = {"events": 0}
+    plan = cfgs(ctx.quick)
+    # ---- G: all configurations are model-checked side by side (TLC start-up dominates the small ones)
+    with ThreadPoolExecutor(max_workers=max(2, min(lib.NCPU, 8))) as ex:
+        fut_ref = ex.submit(model_refutations, ctx)
+        res = list(ex.map(lambda c: mc_one(ctx, c), plan))
+        ref = fut_ref.result()
+    allprogs = ctx.path("programs.ndjson")
     total_programs = 0
-    distinct = 0
-    selftested = False
-    for c in cfgs(ctx.quick):
-        progs, trace, n, dn = mc_and_run(ctx, c, kd, totals)
-        total_programs += n
-        distinct += dn
-        if len(ctx.cov["samples"]) < 4 and not any(s["source"].startswith(c["comp"]) for s in ctx.cov["samples"]):
-            ls = lib.read_lines(trace)
-            s, e = lib.run_of_line(ls, min(len(ls), 900))
-            ctx.cov["samples"].append({"source": f'{c["comp"]}/{c["fam"]}/{c["pre"]}', "trace": [json.loads(x) for x in ls[s:e]]})
-        judge_trace(ctx, trace, f'MC_Containers {c["comp"]}/{c["fam"]} pre={c["pre"]} D={c["D"]} cap={c["cap"]} resm={c["resm"]} lru={c["lru"]}', kd, totals)
-        if not selftested and c["comp"] == "dyn" and c["cap"] >= 2:
-            selftest(ctx, trace, kd)
-            selftested = True
-        os.remove(trace)
-        os.remove(progs)
-    # seeded random long histories (dyn and hl alternate)
-    nrand, rlen = (60, 60) if ctx.quick else (600, 100)
-    trace = ctx.path("trace_random.ndjson")
+    with open(allprogs, "w") as out:
+        for c, r in zip(plan, res):
+            ctx.cov["states"] += r["distinct"]
+            ctx.cov["transitions"] += r["generated"]
+            total_programs += r["n"]
+            ctx.stage("mc", config=r["tag"], distinct_states=r["distinct"], programs=r["n"], wall_s=r["wall_s"])
+            with open(r["progs"]) as f:
+                out.write(f.read())
+            os.remove(r["progs"])
+    ctx.cov["states"] += ref["distinct"]
+    ctx.cov["transitions"] += ref["generated"]
+    _, distinct = lib.count_distinct(allprogs)
+    # ---- execution on the real code
+    trace = ctx.path("trace_mc.ndjson")
+    d = lib.run_sharded(ctx, "drv_containers", allprogs, trace, shards=min(lib.NCPU, 12))
+    ctx.stage("run", source="MC_Containers", programs=d.get("programs"), events=d.get("events"), hangs=d.get("hangs"), wall_s=d["wall_s"])
+    if d.get("programs") != total_programs:
+        raise lib.ToolError(f"driver executed {d.get('programs')} of {total_programs} programs")
+    count_ops(ctx, d)
+    # samples: one run per component
+    seen = set()
+    ls = lib.read_lines(trace)
+    for i, line in enumerate(ls):
+        if lib.is_new(line) and i > 50:
+            comp = json.loads(line)["comp"]
+            if comp not in seen:
+                seen.add(comp)
+                s, e = lib.run_of_line(ls, i + 1)
+                ctx.cov["samples"].append({"source": f"MC_Containers {comp}", "trace": [json.loads(x) for x in ls[s:e]]})
+    del ls
+    # ---- T
+    selftest(ctx, trace, kd)
+    judge_trace(ctx, trace, "MC_Containers (all configurations)", kd, totals)
+    # ---- seeded random long histories (dyn and hl alternate)
+    nrand, rlen = (40, 60) if ctx.quick else (1200, 100)
+    rtrace = ctx.path("trace_random.ndjson")
     dump = ctx.path("prog_random.ndjson")
-    d = lib.run_driver("drv_containers", ["--random", nrand, "--len", rlen, "--out", trace, "--dump-programs", dump], env={"VERIF_SEED": ctx.seed})
+    d = lib.run_driver("drv_containers", ["--random", nrand, "--len", rlen, "--out", rtrace, "--dump-programs", dump], env={"VERIF_SEED": ctx.seed})
     ctx.stage("run", source="random", programs=d.get("programs"), events=d.get("events"), hangs=d.get("hangs"), wall_s=d["wall_s"])
     count_ops(ctx, d)
     _, dn = lib.count_distinct(dump)
-    judge_trace(ctx, trace, f"random seed={ctx.seed}", kd, totals)
+    judge_trace(ctx, rtrace, f"random seed={ctx.seed}", kd, totals)
     total_programs += nrand
     distinct += dn
     # anti-vacuity: the interaction properties were really exercised
